@@ -20,7 +20,7 @@ CHECKS = {
          "every attribute list of 0..2 (thorough 0..3) attributes over (5 names incl. non-ASCII and duplicate) × (14 value forms: bare, unquoted ASCII / non-ASCII / with - and _, empty, with space, `>`, other quote, `=<`, `</block>`, non-ASCII, a whole start tag) × 3 separators × 3 `=` layouts, 3 closing spellings, 8 surrounding noises, in `#`, `/* */`, `<!-- -->`, `//`, SQL `--` and Rust `///` hosts (names and values also containing `--`, `//`, `#`); attributes (last duplicate wins) and position of `<` compared; 17 look-alikes × noises × hosts alone and beside real blocks; 6 end-tag spellings",
          "4–6 attributes not enumerated; host comments delivered by tree-sitter (C03)", "§2 C05"),
  "C06": ("model_checking", "E1", "explicit-state search (level-synchronous parallel BFS; stateright selectable) over content-line sequences, real validator executed in every state against a reference sorter",
-         "every sequence of ≤4 (thorough ≤5) content lines over a 16-line alphabet (ordered, equal, prefix-related, indented, trailing blank, blank, numeric-looking, pattern lines, case) plus an extended unicode/number alphabet, under every direction spelling × pattern × format; the real parse+validate pipeline runs in every state and must agree with the reference on presence, uniqueness and location of the diagnostic",
+         "every sequence of ≤4 (thorough ≤5) content lines over a 16-line alphabet (ordered, equal, prefix-related, indented, trailing blank, blank, numeric-looking, pattern lines, case) plus an extended unicode/number alphabet, under every direction spelling × pattern (incl. empty-capable group, end-anchored, to end of line) × format, next to violating companion blocks of the other sync validators, also with CRLF line ends and in a Markdown host whose start comment goes on after the tag; the real parse+validate pipeline runs in every state and must agree with the reference on presence, uniqueness and location of the diagnostic",
          "regex crate trusted for which substring matches; tree-sitter trusted to deliver one-line # comments; bounded scope (longer blocks and other alphabets are not covered)", "§2 C06–C09"),
  "C07": ("model_checking", "E1", "explicit-state search (level-synchronous parallel BFS; stateright selectable) over content-line sequences against a reference duplicate finder",
          "every sequence of ≤4 (thorough ≤5) lines over a 12-line alphabet with repeated keys, keys differing only in indentation / trailing blanks / outside the regex group, blank and non-matching lines, × {bare, empty, group regex, plain regex, anchored regex}",
@@ -47,7 +47,7 @@ CHECKS = {
          "245k library cases (all trees of ≤3 paths incl. directories named a and b, spaces, dots × 0..2 globs × 0..2 ignores × diff naming ≤2 files or nothing) and 3.5k CLI cases × every directory as cwd (16k runs) with hidden files, a .gitignore'd directory and real `git diff`: listed files = ((walk ∖ hidden ∖ git-ignored) ∩ globs ∪ diff files) ∖ --ignore",
          "globset decides glob/path matching (same crate and options as the documented forms)", "§2 C15"),
  "C16": ("model_checking", "E1", "exhaustive enumeration (stateright grid) of suffix × name shape × -E mapping × content × mode against a reference suffix lookup and the kit's constructed blocks",
-         "39 registered suffixes × 11 file-name shapes (x.S, x.y.S, hidden via diff, dotted directories, names with spaces, upper-cased, .bak, no dot, ~, doubled suffix, suffix as directory) × 4 `-E` mappings × {native probe, unbalanced probe, garbage} × {scan, diff, diff+glob}; mapped names must yield exactly the constructed blocks, unmapped names nothing and no error; CLI slice for -E parsing/validation (rejected before any file is read)",
+         "39 registered suffixes × 11 file-name shapes (x.S, x.y.S, hidden via diff, dotted directories, names with spaces, upper-cased, .bak, no dot, ~, doubled suffix, suffix as directory) × 4 `-E` mappings × {native probe, unbalanced probe, garbage} × {scan, diff, diff+glob}; every ordered pair of 164 names (two stems, .bak, dot-less, look-alikes of compound suffixes) in one run, both walked or the second named by the diff only, each read exactly as alone; mapped names must yield exactly the constructed blocks, unmapped names nothing and no error; CLI slice for -E parsing/validation (rejected before any file is read)",
          "reference lookup written from the property text; the registered-suffix table is cross-checked with the implementation's", "§2 C16"),
  "C17": ("model_checking", "E1", "explicit-state reachability search inside the Lua interpreter (BFS over the object graph from the script's environment), run through the real CLI for every mode value",
          "for 9 values of BLOCKWATCH_LUA_MODE a probe script enumerates every table/function/userdata reachable from _G, _ENV and the string metatable through fields, keys and metatables (≈130 values, ≈270 edges per mode) and returns all reachable function paths; default class: the set must equal the allow-list (base minus dofile/loadfile/require + coroutine/table/string/utf8/math) with none of io/os/package/debug/require/dofile/loadfile; safe adds io/os/package/require but no debug and no working native loader; unsafe adds debug and native loading; 19 concrete escape attempts per default-class value with a canary file",
